@@ -294,6 +294,41 @@ class Func:
             self._dom = _dominators(self.entry, self.blocks.keys(), lambda b: self.succ(b), self.pred)
         return self._dom
 
+    def dominators_env(self, env):
+        """dominators on the CFG pruned by the constant environment env"""
+        if not env:
+            return self.dominators()
+        succ = {b: [s for s, _ in self.edges(b, env)] for b in self.blocks}
+        pred = {b: [] for b in self.blocks}
+        for b, ss in succ.items():
+            for s_ in ss:
+                pred[s_].append(b)
+        return _dominators(self.entry, self.blocks.keys(), lambda b: succ[b], pred)
+
+    def guarding_param_env(self, bid):
+        """{param: 0/1} for bare-parameter conditions (`if (run_check)`) whose taken branch dominates block bid"""
+        dom = self.dominators()
+        env = {}
+        pn = {p['name'] for p in self.params}
+        for d in dom.get(bid, ()):
+            t = self.blocks[d].get('term')
+            if not t or t['kind'] != 'IfStmt' or d == bid:
+                continue
+            c = strip_casts(t.get('fullcond') or t.get('cond'))
+            su = self.blocks[d]['succ']
+            if not isinstance(c, dict) or len(su) != 2:
+                continue
+            neg = False
+            if c.get('k') == 'un' and c['op'] == '!':
+                c = strip_casts(c['e'])
+                neg = True
+            if c.get('k') == 'ref' and c['n'] in pn:
+                if su[0] in dom[bid] and su[1] not in dom[bid]:
+                    env[c['n']] = 0 if neg else 1
+                elif su[1] in dom[bid] and su[0] not in dom[bid]:
+                    env[c['n']] = 1 if neg else 0
+        return env
+
     def postdominators(self):
         if self._pdom is None:
             succ = {b: self.succ(b) for b in self.blocks}
